@@ -1,18 +1,18 @@
 SPECIFICATION Spec
 CONSTANTS
-  N = 1
-  Kinds <- K1c
+  N = 3
+  Kinds <- K3
   Units = 2
   Cap = 1
   DropParentCloseW = FALSE
   FailAt = 0
-  HereAt = 1
-  HereUnits = 2
+  HereAt = 0
+  HereUnits = 0
   SigpipeMode = "ignored"
-  CapRedirect = FALSE
-  CapCloseMode = "always"
+  CapRedirect = TRUE
+  CapCloseMode = "onlyDup"
   CapReadMode = "concurrent"
-  Capture = FALSE
+  Capture = TRUE
 INVARIANT ShellAlive
 INVARIANT ExecFds
 INVARIANT ShellFdsRestored
